@@ -93,6 +93,8 @@ type Thread struct {
 	pending *pendingOp
 	granted bool
 	retry   func()
+	started bool
+	ranOp   bool // a granted visible operation has just been executed
 	sync    bool // synchronous nested execution (callSync)
 	result  Value
 	vc      []int
@@ -398,6 +400,7 @@ type stopReason int
 const (
 	stopDone stopReason = iota
 	stopPending
+	stopArriving
 )
 
 // runThread executes th until it finishes or stops at a visible operation.
@@ -451,6 +454,12 @@ func (w *World) runThreadInner(th *Thread) (reason stopReason, again bool) {
 		}
 		instr := fr.block.Instrs[fr.pc]
 		w.exec(th, fr, instr)
+		if th.ranOp {
+			th.ranOp = false
+			if w.eng.cfg.LazyArrive && !th.sync && th.pending == nil {
+				return stopArriving, false
+			}
+		}
 	}
 }
 
